@@ -40,6 +40,20 @@ Qed.
 Lemma b64_encode_plain l : Forall (fun b => plain b = true) (b64_encode l).
 Proof. eapply Forall_impl; [|apply b64_encode_alpha]. intros b. apply alpha_plain. Qed.
 
+(* a !binary: raw value of any length is read back byte for byte (the CR/LF filter of Go's decoder leaves base64 text alone) *)
+Lemma filter_all {A} (f : A -> bool) l : Forall (fun x => f x = true) l -> filter f l = l.
+Proof. induction 1 as [|x l Hx _ IH]; [reflexivity|]. cbn. rewrite Hx, IH. reflexivity. Qed.
+
+Theorem read_raw_binary payload : payload <> [] ->
+  read_raw (binary_prefix ++ b64_encode payload) = Some payload.
+Proof.
+  intros H. unfold read_raw. rewrite strip_prefix_app.
+  destruct payload as [|a l]; [congruence|].
+  destruct (b64_encode (a :: l)) eqn:E; [exfalso; eapply b64_encode_nonempty; eauto|].
+  rewrite <- E. rewrite filter_all; [apply b64_decode_encode|].
+  eapply Forall_impl; [|apply b64_encode_plain]. intros c Hc. unfold plain in Hc. unfold is_crlf. lia.
+Qed.
+
 Lemma plain_facts b : plain b = true ->
   b2n b <> 45 /\ b2n b <> 58 /\ is_st b = false /\ b2n b <> 13 /\ is_nl b = false.
 Proof. unfold plain, is_st, is_nl. intros H. repeat split; lia. Qed.
